@@ -53,6 +53,9 @@ REVERTS = [
     ('revert-F11-range-index-plus-one', ['C01', 'C17'], 'fastparquet/api.py',
      "                            stop=ic['start'] + size * ic['step'],\n",
      "                            stop=ic['start'] + size * ic['step'] + 1,\n"),
+    ('revert-F12-constant-cast-to-partition-type', ['C05', 'C13'], 'fastparquet/api.py',
+     "                if not _number_vs_numeric(val, partition_meta.get(cat)):\n                    val = val_to_num(val, meta=partition_meta.get(cat))\n",
+     "                val = val_to_num(val, meta=partition_meta.get(cat))\n"),
 ]
 
 # functions whose twins are run per property (module, qualname)
